@@ -101,7 +101,6 @@ void h_add_column(void) {
 
   if (st == CARQUET_OK) {
     CQV_CANARY("add_column can succeed");
-    if (ne == 64 && s->capacity == 128) CQV_CANARY("add_column can grow 64 -> 128");
 #if CQV_PART == 0
     check_rep(s);
     __CPROVER_assert(s->num_elements == ne + 1 && s->num_leaves == nl + 1, "one element and one leaf more");
@@ -142,10 +141,8 @@ void h_add_column(void) {
     if (have_j) __CPROVER_assert(s->leaf_indices[j] == old_li && s->max_def_levels[j] == old_d && s->max_rep_levels[j] == old_r, "C19: on error earlier leaves are kept");
 #endif
   }
-#ifndef X_NOFREE
   carquet_schema_free(s);   /* the handle can still be freed normally */
   __CPROVER_assert(cqv_arena_live == 0, "free destroys the arena");
-#endif
   free(name);
   CQV_CANARY("add_column harness end");
 }
